@@ -81,6 +81,14 @@ def callable_op(fn_node, node, model=None, fn=None):
 
     if isinstance(node, ast.Lambda):
         return lambda_op(node)
+    if isinstance(node, (ast.Subscript, ast.Name)) and model is not None and fn is not None:
+        # an entry of a constant module table of operators, or a name imported from the operator module
+        from .dispatch import OPFN
+        from .terms import Resolver
+        if not (isinstance(node, ast.Name) and any(isinstance(n, ast.Name) and n.id == node.id and isinstance(n.ctx, ast.Store) for n in ast.walk(fn_node))):
+            t = Resolver(model, fn, flow=False).term(node)
+            if t[0] in ("opfn", "opfn-swapped") and t[1] in OPFN:
+                return OPFN[t[1]], t[0] == "opfn-swapped"
     opmod = {"add": ast.Add, "sub": ast.Sub, "mul": ast.Mult, "truediv": ast.Div, "floordiv": ast.FloorDiv}
     if isinstance(node, ast.Attribute) and isinstance(node.value, ast.Name) and node.value.id in ("operator", "_operator") and node.attr in opmod:
         return opmod[node.attr], False
